@@ -68,9 +68,9 @@ def rewrite_strings(src, rng):
 def run(rep, ctx):
     rng = random.Random(ctx.seed * 977 + 5)
     n_random = 120 if ctx.tier == 'quick' else 1200
-    base = common.standard_programs(ctx, n_random, n_per_carrier=1, streams=('corpus', 'product', 'random'))
+    base = common.standard_programs(ctx, n_random, n_per_carrier=1, streams=('corpus', 'product', 'random', 'special'))
     base = [p for p in base if 'assembly' not in p['src'] or True]
-    styles = ['lines', 'random', 'crlf', 'comments']
+    styles = ['lines', 'random', 'crlf', 'comments', 'dense']
     if ctx.tier != 'quick':
         styles = styles + ['random', 'comments', 'crlf', 'comments']
     progs = []
